@@ -190,12 +190,14 @@ func Bytes(name string, n int) []byte {
 
 func Str(name string, n int) string { return string(Bytes(name, n)) }
 
-// Len returns a symbolic integer in [lo,hi], concretised (one fork per value).
+// Len returns a fresh symbolic integer in [lo,hi], concretised (one fork per
+// value; INTRINSIC: needs no solver call because the variable is fresh).
 func Len(name string, lo, hi int) int {
-	v := U64(name)
-	Assume(v >= uint64(lo))
-	Assume(v <= uint64(hi))
-	return int(Concretize(v))
+	v := int(U64(name))
+	if v < lo || v > hi {
+		panic("zz_verifrt: ASSUME-FALSE (Len out of range)")
+	}
+	return v
 }
 
 // Choice returns a value in [0,n), one fork per value.
@@ -257,4 +259,53 @@ func RunReplay(fns map[string]func()) {
 		fmt.Println("VERIF-REPLAY-TIMEOUT")
 	}
 	fmt.Println("VERIF-REPLAY-END failed:", len(Failed))
+}
+
+// ---------- fork-free boolean helpers (INTRINSIC: build one term) ----------
+
+// All is conjunction without short-circuit forks.
+func All(cs ...bool) bool {
+	for _, c := range cs {
+		if !c {
+			return false
+		}
+	}
+	return true
+}
+
+// Any is disjunction without short-circuit forks.
+func Any(cs ...bool) bool {
+	for _, c := range cs {
+		if c {
+			return true
+		}
+	}
+	return false
+}
+
+// Implies is (!a || b) without forks.
+func Implies(a, b bool) bool { return !a || b }
+
+// EqBytes compares two byte slices without forking per byte.
+func EqBytes(a, b []byte) bool {
+	if len(a) != len(b) {
+		return false
+	}
+	for i := range a {
+		if a[i] != b[i] {
+			return false
+		}
+	}
+	return true
+}
+
+// EqStr compares two strings without forking per byte.
+func EqStr(a, b string) bool { return a == b }
+
+// IteU64 selects without forking.
+func IteU64(c bool, a, b uint64) uint64 {
+	if c {
+		return a
+	}
+	return b
 }
